@@ -109,6 +109,17 @@ class CallMixin:
         if isinstance(callee, VBoundPy):
             # method of an opaque library object: unconstrained result; it may change what later attribute reads see
             self.ctx.opaque_attrs.clear()
+            if callee.name in ('removeErrorListeners', 'addErrorListener'):
+                # assumed library model of antlr4.Recognizer: the recognizer keeps a list of listeners, initially the console
+                # listener; removeErrorListeners empties it, addErrorListener appends (ghost state '$listeners' of the path)
+                reg = dict(path.env.get('$listeners') or {})
+                oid = callee.obj.t.get_id()
+                cur = reg.get(oid, ('<console>',))
+                reg[oid] = () if callee.name == 'removeErrorListeners' else cur + (args[0].t.get_id() if args and hasattr(args[0], 't') and args[0].t is not None else '<unknown>',)
+                path.env['$listeners'] = reg
+                self.ctx.assumptions.add('antlr4 Recognizer.removeErrorListeners / addErrorListener modelled as operations on a listener list '
+                                         '(initially the console listener); every lexical and syntax error is reported to all listeners in the list')
+                return [(VNone(), path)]
             return [(VPy(self.ctx.fresh('py_' + callee.name, self.ctx.sorts.PyVal)), path)]
         raise OutOfReach(f'call of {callee.kind} (line {ln})')
 
@@ -258,6 +269,11 @@ class CallMixin:
         saved_env, saved_mod = path.env, self.cur_mod
         names = [a.arg for a in fnode.args.args]
         path.env = {n: env[n] for n in names if n in env}
+        for g in ('$listeners',):          # ghost state of the path stays visible to specification text
+            if g in env:
+                path.env[g] = env[g]
+            elif g in saved_env:
+                path.env[g] = saved_env[g]
         missing = [n for n in names if n not in env]
         if missing:
             raise OutOfReach(f'clause {fnode.name} of {con.fid} mentions unknown parameters {missing}')
